@@ -190,7 +190,13 @@ Section Solve.
       | None => None
       | Some (st, stats, log, hs, hfin, jl, _, _) =>
           Some (mkSol (frev (hs_t hs)) (frev (hs_y hs)) (map frev (hs_tev hs)) (map frev (hs_yev hs))
-                      stats st (if o_dense opt then Some (frev (hs_segs hs)) else None)
+                      stats st (if o_dense opt then
+                                  (* no accepted step at all: the covered range is the single point x0 *)
+                                  Some (match hs_segs hs with
+                                        | [] => [constant_seg (o_method opt) x0 y0]
+                                        | _ => frev (hs_segs hs)
+                                        end)
+                                else None)
                       (frev log) (frev (hs_evlog hs)) (frev jl) (hs_brent_unconverged hs) hfin)
       end.
 
